@@ -1215,7 +1215,20 @@ impl<'a, C: CellType> OptRebuild<'a, C> {
                             }
                             sub_state.perform_all(0, &to_perform);
                         }
+                        // A cell the loop overwrites with the value it is already known to
+                        // have must really have it: an operation still pending for it would
+                        // otherwise be applied again to what the loop has stored.
+                        let mut rewritten = sub_state
+                            .written
+                            .keys()
+                            .copied()
+                            .filter(|var| constant.contains(var))
+                            .collect::<Vec<_>>();
+                        rewritten.sort();
                         sub_state = sub_state.forget_parent();
+                        for var in rewritten {
+                            self.emit(var);
+                        }
                         self.perform_all(0, &before);
                         if loop_anal.at_least_once || (!loop_anal.at_most_once && after.is_empty())
                         {
